@@ -124,6 +124,13 @@ def _match_call_by_signature(pat, node, env):
 
 
 def _match(pat, node, env):
+    if isinstance(pat, ast.Call) and isinstance(node, ast.Call) and len(pat.keywords) > 1 and len(pat.keywords) == len(node.keywords) and \
+            all(k.arg is not None for k in pat.keywords) and all(k.arg is not None for k in node.keywords):
+        # keyword arguments match by name, in whatever order they are written
+        pn, nn = [k.arg for k in pat.keywords], [k.arg for k in node.keywords]
+        if pn != nn and sorted(pn) == sorted(nn) and len(set(pn)) == len(pn):
+            byname = {k.arg: k for k in node.keywords}
+            node = ast.copy_location(ast.Call(func=node.func, args=node.args, keywords=[byname[a] for a in pn]), node)
     if isinstance(pat, ast.Call) and isinstance(node, ast.Call) and SIGNATURES and \
             (len(pat.args) != len(node.args) or [k.arg for k in pat.keywords] != [k.arg for k in node.keywords]):
         if _match_call_by_signature(pat, node, env):
